@@ -3,4 +3,4 @@ From PV Require Import Base.IO Obj.ObjDefs.
 Extraction Language OCaml.
 (* coqc runs from coq/ (coq_makefile), so the path is relative to it *)
 Extraction "extracted/obj.ml" io_witness class_initialize run_constructors run_destructors
-  step init thr_done obj_life ctors_of dtors_of.
+  step init thr_done obj_life ctors_of dtors_of fstep finit fthr_done.
